@@ -1001,6 +1001,14 @@ def simple_nodes(run, model, rule="C06.node-semantics"):
     fi, flow, rts = ret_terms("visit_Slice")
     if fi is not None:
         def part_ok(t, attr):
+            if t[0] == "op" and t[1] == "ifexp":
+                # ``visit(node.x) if node.x is not None else None`` (or the test the other way round)
+                test, body, orelse = t[2]
+                if test[0] == "op" and test[1] in ("cmp:IsNot", "cmp:Is") and set(test[2]) == set([("attr", NODE, attr), ("const", "None")]):
+                    if test[1] == "cmp:Is":
+                        body, orelse = orelse, body
+                    return visit_arg(body) == ("attr", NODE, attr) and orelse == ("const", "None")
+                return False
             alts = t[1] if t[0] == "phi" else (t,)
             return all(a == ("const", "None") or visit_arg(a) == ("attr", NODE, attr) for a in alts) and any(visit_arg(a) == ("attr", NODE, attr) for a in alts)
         ok = len(rts) >= 1 and all(t[0] == "call" and t[1] == ("builtin", "slice") and len(t[2]) == 3 and part_ok(t[2][0], "lower") and part_ok(t[2][1], "upper") and part_ok(t[2][2], "step") for t in rts)
